@@ -91,6 +91,55 @@ Theorem C07_not_in_snapshot_no_record : forall nm objs n b r,
 Proof. exact not_in_snapshot_no_record. Qed.
 Print Assumptions C07_not_in_snapshot_no_record.
 
+(* Order, local receivers.  A thread publishes sequentially: when it starts publication j2 its
+   earlier publication j1 has served all its receivers (state n1).  From there on, whatever the
+   other threads and peers do, queues only grow at the newer end, j1 adds no further record and j2
+   had none before: in every queue every record of j1 is older than every record of j2. *)
+Theorem C07_order_local : forall nm n1 ins n2 os b1 j2,
+  NInv nm n1 -> node_run n1 ins = Some (n2, os) -> Forall (fun i => input_ok nm i /\ input_wf i) ins ->
+  In b1 (n_jobs n1) -> j_todo b1 = [] -> n_jobctr n1 <= j2 ->
+  exists new, n_log n2 = new ++ n_log n1 /\
+    (forall r, cnt nm (j_id b1) r new = 0%nat) /\ (forall r, cnt nm j2 r (n_log n1) = 0%nat).
+Proof. exact order_local. Qed.
+Print Assumptions C07_order_local.
+
+(* ... the hypothesis NInv holds in every reachable state *)
+Theorem C07_reachable_NInv : forall nm objs n, nodot nm = true -> reachable nm objs n -> NInv nm n.
+Proof. exact reachable_NInv. Qed.
+Print Assumptions C07_reachable_NInv.
+
+(* Remote: per publication and peer context at most one signal message is handed to the router, only
+   to peers of the snapshot of _remote_subscriptions taken under the lock and already served, with
+   the published contents (exactly one unless the peer vanished between snapshot and send) *)
+Theorem C07_remote_at_most_once : forall nm objs ins n os b x,
+  nodot nm = true -> node_run (init_node nm objs) ins = Some (n, os) ->
+  Forall (fun i => input_ok nm i /\ input_wf i) ins -> In b (n_jobs n) ->
+  (sent x (j_id b) os <= if smem str_eqb x (opt_list (j_rsnap b)) && negb (smem str_eqb x (j_rtodo b)) then 1 else 0)%nat /\
+  (forall p s a, In (OSend x (MSignal p s a (j_id b))) os ->
+     p = j_pub b /\ s = j_sig b /\ a = j_args b /\ In x (opt_list (j_rsnap b))).
+Proof. exact remote_at_most_once. Qed.
+Print Assumptions C07_remote_at_most_once.
+
+(* the send itself: one message iff the router can reach the peer *)
+Theorem C07_send_step : forall n j x n' os b,
+  node_step n (IPubSend j x) = Some (n', os) -> find_job j (n_jobs n) = Some b ->
+  In x (j_rtodo b) /\ os = (if can_send n x then [OSend x (MSignal (j_pub b) (j_sig b) (j_args b) j)] else []).
+Proof.
+  intros n j x n' os b H Hf. simpl in H. rewrite Hf in H.
+  destruct (smem str_eqb x (j_rtodo b)) eqn:E; [|discriminate]. inversion H. split; [apply smem_S_In; exact E | reflexivity].
+Qed.
+Print Assumptions C07_send_step.
+
+(* FIFO channels of the two-context system: a step only appends at the tail of a channel, or takes
+   its head (which is what L2Deliver handles), or empties both at a new connection *)
+Theorem C07_channel_fifo : forall s l s' os sd,
+  step2 s l = Some (s', os) ->
+  (exists app, ch s' sd = ch s sd ++ app) \/
+  (exists m rest app, ch s sd = m :: rest /\ ch s' sd = rest ++ app /\ l = L2Deliver sd) \/
+  (ch s' sd = [] /\ l = L2Connect).
+Proof. exact channel_fifo. Qed.
+Print Assumptions C07_channel_fifo.
+
 (* non-vacuity: a concrete history with two receivers, a publication interleaved with an unsubscribe *)
 Example C07_example :
   let nm := [110] in let p := [112] in let s := [115] in
